@@ -140,8 +140,9 @@ def run_exchange(case):
                 findings.append(('wire_addressing', 'session %02X->%02X, expected %02X->%02X' % (s.sa, s.da, STACK, 255 if bam else REF)))
             if (s.size, s.packets) != (size, npk):
                 findings.append(('wire_size', 'announced size %d / %d packets, submitted %d / %d' % (s.size, s.packets, size, npk)))
-            if not bam and s.limit != min(case['w'], npk):
-                findings.append(('rts_limit', 'RTS announces a window limit of %d; max_cmdt_packets=%d, packets=%d' % (s.limit, case['w'], npk)))
+            if not bam and not (1 <= s.limit <= 255):
+                # any limit 1..255 is legal (255 = no limit); which one the stack announces is its own business
+                findings.append(('rts_limit', 'RTS announces a window limit of %d' % s.limit))
             # pacing of the stack's own packets
             ts = [s.t_open] + [t for (t, seq, d) in s.dts]
             if fd and bam and s.eom:
@@ -190,9 +191,6 @@ def run_exchange(case):
             for (n, nxt, lim, tot) in O.cts_seen:
                 if n > case['w']:
                     findings.append(('own_max_exceeded', 'CTS grants %d packets although max_cmdt_packets=%d' % (n, case['w'])))
-                    break
-                if n == 0:
-                    findings.append(('unexpected_hold', 'the stack sent a hold CTS'))
                     break
     if not A.tables_empty():
         findings.append(('session_stuck', 'stack session tables not empty at the end: %s' % A.tables()))
